@@ -1,21 +1,21 @@
 (* The package registry and the dispatch functions shared by C06 / C07 / C10. No proofs here. *)
 From Coq Require Import ZArith List Bool.
 Import ListNotations.
-From V Require Import Base.Tree Base.Bytes Base.Parser Pkg.Iface Pkg.RegCore Pkg.RegB2.
+From V Require Import Base.Tree Base.Bytes Base.Parser Pkg.Iface Pkg.RegCore Pkg.RegB1 Pkg.RegB2.
 Open Scope Z_scope.
 
-Definition kinds_all : list kind := kinds_core ++ kinds_b2.
+Definition kinds_all : list kind := kinds_core ++ kinds_b1 ++ kinds_b2.
 
 (* writers that panic in Go (known finding: KEY writer passes the width of the length prefix as data length) *)
 Definition enc_panics (tok : Z) (fields : tree) : bool := enc_panics_b2 tok fields.
 
 Definition class_tree {A} (r : pres A) : Z :=
-  match r with POk _ _ => 0 | PNeb => 1 | PErr _ => 2 | PPanic => -1 end.
+  match r with POk _ _ => 0 | PNeb => 1 | PErr _ _ => 2 | PPanic => -1 end.
 
 Definition dec_run (tok : Z) (ctx : tree) (body : bytes) : pres tree :=
   match find_kind tok kinds_all with
   | Some k => k_dec k ctx body
-  | None => PErr 999
+  | None => PErr 999 body
   end.
 
 Definition prefixes (body : bytes) : list bytes := map (fun n => firstn n body) (seq 0 (length body)).
@@ -35,7 +35,7 @@ Definition run (fn : Z) (i : tree) : tree :=
          match dec_run tok (t_nth 2 i) body with
          | POk t r => TL [TI 0; TI (zlen body - zlen r); t]
          | PNeb => TL [TI 1; TI 0; TL []]
-         | PErr _ => TL [TI 2; TI 0; TL []]
+         | PErr _ _ => TL [TI 2; TI 0; TL []]
          | PPanic => TL [TI (-1); TI 0; TL []]
          end
   | 3 => let body := t_bytes (t_nth 1 i) in
@@ -47,8 +47,18 @@ Definition run (fn : Z) (i : tree) : tree :=
 
 Definition spec (fn : Z) (i o : tree) : bool :=
   match fn with
-  | 1 => match o with TL [TI 0; TB _; TI ok] => ok =? 1 | _ => false end     (* independent decoder accepted the bytes *)
-  | 2 => tree_eqb o (TL [TI 0; TI (zlen (t_bytes (t_nth 1 i))); t_nth 3 i])    (* ok, all bytes consumed, fields as sent *)
+  | 1 => if t_int (t_nth 2 i) =? 0 then true else           (* outside the domain of the property: nothing claimed *)
+         match o with
+         | TL [TI 0; TB _; TI ok] => ok =? 1            (* the independent decoder accepted the bytes *)
+         | TL [TI 2] =>                                  (* the writer refused: only where the model says it must *)
+             match find_kind (t_int (t_nth 0 i)) kinds_all with
+             | Some k => match k_enc k (t_nth 1 i) with None => true | Some _ => false end
+             | None => false
+             end
+         | _ => false
+         end
+  | 2 => if t_int (t_nth 4 i) =? 0 then true else
+         tree_eqb o (TL [TI 0; TI (zlen (t_bytes (t_nth 1 i))); t_nth 3 i])    (* ok, all bytes consumed, fields as sent *)
   | 3 => (* a valid encoding (parsed completely, also by the model): every proper prefix is not-enough-bytes *)
          let body := t_bytes (t_nth 1 i) in
          let model_valid := match dec_run (t_int (t_nth 0 i)) (t_nth 2 i) body with POk _ [] => true | _ => false end in
